@@ -269,26 +269,41 @@ theorem timezone_flag_nonzero_counterexample :
 /-! ## 4. Trees -/
 
 /-- **Tree entries: fields → bytes → fields** (pure-Python `parse_tree`).  For either hash length, every
-list of entries with non-negative modes, NUL-free names (arbitrary other bytes, spaces included) and
-lowercase-hex ids of that length serialises, and parsing the bytes returns exactly the list. -/
+list of entries with modes in `0..2^32-1` (the strict mode token of 5d5709a refuses anything larger),
+NUL-free names (arbitrary other bytes, spaces included) and lowercase-hex ids of that length serialises,
+and parsing the bytes returns exactly the list. -/
 theorem tree_roundtrip (shaLen : Nat) (hlen : 2 * shaLen ∈ OGen.hexLens) (es : List Entry)
-    (hwf : ∀ e ∈ es, WFEntry shaLen e) :
+    (hwf : ∀ e ∈ es, WFEntry shaLen e) (h32 : ∀ e ∈ es, e.mode < 4294967296) :
     ∃ bs, serializeTree es = .ok bs ∧ parseTreePy shaLen bs = .ok es := by
-  obtain ⟨bs, h1, h2, h3⟩ := parseTreeAux_serialize (pyInt 8) shaLen hlen
-    (fun n _ => pyInt_padZeros _ n) es (fun e he => ⟨hwf e he, Or.inl rfl⟩)
+  obtain ⟨bs, h1, h2, h3⟩ := parseTreeAux_serialize pyModeToken shaLen hlen
+    (fun n hn => pyModeToken_padZeros _ n hn) es (fun e he => ⟨hwf e he, h32 e he⟩)
   exact ⟨bs, h1, h3 _ h2⟩
 
-/-- The same for the Rust `parse_tree`, for modes that fit `u32`. -/
+/-- The same for the Rust `parse_tree`. -/
 theorem tree_roundtrip_rs (shaLen : Nat) (hlen : 2 * shaLen ∈ OGen.hexLens) (es : List Entry)
     (hwf : ∀ e ∈ es, WFEntry shaLen e) (h32 : ∀ e ∈ es, e.mode < 4294967296) :
     ∃ bs, serializeTree es = .ok bs ∧ parseTreeRs shaLen bs = .ok es := by
-  obtain ⟨bs, h1, h2, h3⟩ := parseTreeAux_serialize (fun s => (rsOctU32 s).map Int.ofNat) shaLen hlen
-    (fun n hn => by
-      rcases hn with hn | hn
-      · have := congrFun hn [45, 55]
-        exact absurd this (by decide)
-      · simp [rsOctU32_padZeros _ n hn]) es (fun e he => ⟨hwf e he, Or.inr (h32 e he)⟩)
+  obtain ⟨bs, h1, h2, h3⟩ := parseTreeAux_serialize rsModeToken shaLen hlen
+    (fun n hn => rsModeToken_padZeros _ n hn) es (fun e he => ⟨hwf e he, h32 e he⟩)
   exact ⟨bs, h1, h3 _ h2⟩
+
+/-- **The mode token is strict, and the same in both implementations** (5d5709a): `[0-7]+` below 2^32.
+Signs, whitespace, `0o`, underscores and a 33-bit value — all of which `int(token, 8)` took — are refused,
+and so is the leading `+` that `u32::from_str_radix` takes. -/
+theorem mode_token_py_eq_rs (s : Bytes) : pyModeToken s = rsModeToken s := rfl
+
+theorem mode_token_strict_examples :
+    pyModeToken [45, 55] = none ∧ pyModeToken [43, 55] = none ∧ pyModeToken [9, 55] = none ∧
+    pyModeToken [48, 111, 55] = none ∧ pyModeToken [55, 95, 48] = none ∧ pyModeToken [] = none ∧
+    pyModeToken [52, 48, 48, 48, 48, 48, 48, 48, 48, 48, 48] = none ∧
+    pyModeToken [51, 55, 55, 55, 55, 55, 55, 55, 55, 55, 55] = some 4294967295 ∧
+    pyModeToken [48, 52, 48, 48, 48, 48] = some 16384 := by decide
+
+/-- **Regression witnesses on the old variants**: `int(b"-7", 8)` and `int(b"7_0", 8)` were accepted by the
+Python parser, and `+7` by the Rust one, while the other side refused. -/
+theorem old_mode_token_counterexample :
+    pyInt 8 [45, 55] = some (-7) ∧ pyInt 8 [55, 95, 48] = some 56 ∧ rsOctU32 [45, 55] = none ∧
+    rsOctU32 [43, 55] = some 7 ∧ pyModeToken [43, 55] = none ∧ rsModeToken [43, 55] = none := by decide
 
 /-- Non-vacuity: both hash lengths are admitted, and a tree with a space in a name, a directory and a
 gitlink is well-formed. -/
@@ -316,21 +331,32 @@ theorem sortedTreeItems_sorted (es : List Entry) :
 example : (sortedTreeItems [⟨[97, 46, 98], 33188, []⟩, ⟨[97], 16384, []⟩, ⟨[97, 45], 33188, []⟩, ⟨[97, 48], 33188, []⟩]).map (·.name)
     = [[97, 45], [97, 46, 98], [97], [97, 48]] := by decide
 
-/-- **The order is git's.**  On names without NUL and `/` (the names git accepts) Python's key order
-coincides with `cmp_with_suffix`, the Rust transliteration of git's `base_name_compare` ("compare the
-common prefix, then one more byte, a directory's name being terminated by `/`, any other by NUL") … -/
-theorem tree_order_is_git_order (a b : Entry) (ha : CleanName a.name) (hb : CleanName b.name) :
-    keyLe a b = rsLe a b := keyLe_eq_rsLe a b ha hb
+/-- **The order is git's, and the same in both implementations, for ALL names** (15beabf).  Python's key
+order (`name`, or `name/` for a directory, compared as bytes) is exactly what the Rust `cmp_with_suffix`
+computes — "compare the common prefix, then the rest of each name chained with `/` or nothing" — for every
+pair of entries, names containing `/` or NUL included … -/
+theorem tree_order_is_git_order (a b : Entry) : keyLe a b = rsLe a b := keyLe_eq_rsLe a b
 
-/-- … hence the Python and the Rust `sorted_tree_items` return the same list. -/
-theorem sortedTreeItems_py_eq_rs (es : List Entry) (h : ∀ e ∈ es, CleanName e.name) :
-    sortedTreeItems es = sortedTreeItemsRs es :=
-  sortBy_congr keyLe rsLe es (fun x hx y hy => keyLe_eq_rsLe x y (h x hx) (h y hy))
+/-- … hence the Python and the Rust `sorted_tree_items` return the same list, always. -/
+theorem sortedTreeItems_py_eq_rs (es : List Entry) : sortedTreeItems es = sortedTreeItemsRs es :=
+  sortBy_congr keyLe rsLe es (fun x _ y _ => keyLe_eq_rsLe x y)
 
-/-- Negation witness for the hypothesis: with a `/` inside a name the two orders differ (directory `a`
-against file `a/b`: Python compares `a/` < `a/b`, the Rust comparator stops after one byte: equal). -/
-theorem tree_order_needs_clean_names_counterexample :
-    keyLe ⟨[97, 47, 98], 33188, []⟩ ⟨[97], 16384, []⟩ ≠ rsLe ⟨[97, 47, 98], 33188, []⟩ ⟨[97], 16384, []⟩ := by
+/-- Both refuse the same inputs (a mode that is not an unsigned 32-bit number; 46c4930). -/
+theorem sortedTreeItemsE_py_eq_rs (es : List Entry) : sortedTreeItemsE es = sortedTreeItemsRsE es := by
+  simp [sortedTreeItemsE, sortedTreeItemsRsE, sortedTreeItems_py_eq_rs]
+
+/-- The old comparator (one virtual byte past the common prefix, NUL as "no suffix") agreed with the key
+order only on names without NUL and `/` … -/
+theorem old_tree_order_clean_names (a b : Entry) (ha : CleanName a.name) (hb : CleanName b.name) :
+    keyLe a b = rsLeOld a b := keyLe_eq_rsLeOld a b ha hb
+
+/-- … **regression witness on the old variant**: directory `a` against file `a/b` — Python compares
+`a/` < `a/b`, the old Rust comparator stopped after one byte (equal); the comparator the code has now
+agrees with Python on the same pair. -/
+theorem old_tree_order_counterexample :
+    keyLe ⟨[97, 47, 98], 33188, []⟩ ⟨[97], 16384, []⟩ ≠ rsLeOld ⟨[97, 47, 98], 33188, []⟩ ⟨[97], 16384, []⟩ ∧
+    keyLe ⟨[97, 47, 98], 33188, []⟩ ⟨[97], 16384, []⟩ = rsLe ⟨[97, 47, 98], 33188, []⟩ ⟨[97], 16384, []⟩ ∧
+    keyLe ⟨[97], 33188, []⟩ ⟨[97, 0], 33188, []⟩ = rsLe ⟨[97], 33188, []⟩ ⟨[97, 0], 33188, []⟩ := by
   decide
 
 /-- **Canonical trees: bytes → fields → bytes.**  For entries already in `key_entry` order with pairwise
@@ -338,14 +364,22 @@ distinct names (what git writes), `Tree._deserialize` of the serialised bytes gi
 `Tree._serialize` of those gives back the bytes — also after any dirty-marking touch, since the cache
 theorem above makes the content equal `serializeTreeObj` of the fields. -/
 theorem tree_canonical_reserialise (shaLen : Nat) (hlen : 2 * shaLen ∈ OGen.hexLens) (es : List Entry)
-    (hwf : ∀ e ∈ es, WFEntry shaLen e) (hsorted : es.Pairwise (fun a b => keyLe a b = true))
+    (hwf : ∀ e ∈ es, WFEntry shaLen e) (h32 : ∀ e ∈ es, e.mode < 4294967296)
+    (hsorted : es.Pairwise (fun a b => keyLe a b = true))
     (hdistinct : es.Pairwise (fun a b => a.name ≠ b.name)) :
     ∃ bs, serializeTree es = .ok bs ∧ deserializeTreeObj shaLen bs = .ok es ∧ serializeTreeObj es = .ok bs := by
-  obtain ⟨bs, h1, h2⟩ := tree_roundtrip shaLen hlen es hwf
+  obtain ⟨bs, h1, h2⟩ := tree_roundtrip shaLen hlen es hwf h32
   refine ⟨bs, h1, ?_, ?_⟩
   · have := foldl_dictSet_distinct es [] hdistinct (by simp)
     simp only [deserializeTreeObj, h2, dictOfList, this, List.nil_append]
-  · simp only [serializeTreeObj, sortedTreeItems, sortBy_sorted keyLe es hsorted, h1]
+  · have hm : modesOk es = true := by
+      have mx : OGen.treeModeMax = 4294967295 := rfl
+      simp only [modesOk, List.all_eq_true, Bool.and_eq_true, decide_eq_true_eq, mx]
+      intro e he
+      have := (hwf e he).1
+      have := h32 e he
+      constructor <;> omega
+    simp only [serializeTreeObj, sortedTreeItemsE, hm, if_true, sortedTreeItems, sortBy_sorted keyLe es hsorted, h1]
 
 /-! ## 5. Time entries, tags, commits -/
 
